@@ -192,6 +192,28 @@ func genC09(seed uint64, pairs bool) *world.Scenario {
 			f2 = fault
 			f2.Nth = fault.Nth + r.Range(1, 3)
 		}
+		if r.Bool(0.35) {
+			// a fault that stops regulation of the fan, paired with faults in the restoration that follows
+			sc.Faults = sc.Faults[:0]
+			switch {
+			case combo.curve != "linear" && combo.sensor != "cmd":
+				sc.Faults = append(sc.Faults, world.FaultSpec{Op: "read", Target: "sensor:sa", Nth: r.Range(0, 8), Count: 2, Kind: kernel.Pick(r, "eio", "garbage", "missing"), OnlyFlags: "curve"})
+			case combo.curve != "linear":
+				sc.Faults = append(sc.Faults, world.FaultSpec{Op: "exec", Target: "sensor:sa", Nth: r.Range(0, 8), Count: 2, Kind: kernel.Pick(r, "exit1", "garbage", "timeout"), OnlyFlags: "curve"})
+			default:
+				// the first PWM read of the first cycle fails: calculateTargetPwm returns the error
+				sc.Faults = append(sc.Faults, fault)
+			}
+			if combo.fan == "cmd" {
+				f2 = world.FaultSpec{Op: "exec", Target: "fan:fa:setpwm", Nth: r.Range(0, 1), Count: kernel.Pick(r, 1, 2), Kind: kernel.Pick(r, "exit1", "notexec", "timeout"), OnlyFlags: "restore"}
+			} else {
+				f2 = world.FaultSpec{Op: "write", Target: "fan:fa:pwm", Nth: r.Range(0, 1), Count: kernel.Pick(r, 1, 2), Kind: "error", OnlyFlags: "restore"}
+				if combo.fan == "hwmon" {
+					sc.Faults = append(sc.Faults, world.FaultSpec{Op: "write", Target: "fan:fa:enable", Nth: 0, Count: 2, Kind: kernel.Pick(r, "error", "einval", "ignored"), OnlyFlags: "restore"})
+				}
+			}
+			sc.Variant += "/restore-faults"
+		}
 		sc.Faults = append(sc.Faults, f2)
 	}
 	return sc
@@ -258,6 +280,36 @@ func judgeSurvive(res *check.Result, sc *world.Scenario, co *childOut, prop stri
 			}
 		}
 	}
+	// restore attempts of PWM 255 per fan and how many of them the fault plan made fail
+	w255, w255Faulted := map[string]int{}, map[string]int{}
+	for _, ev := range co.Events {
+		if ev.Flags&kernel.FRestore == 0 {
+			continue
+		}
+		val, p, isW := ev.Val, "", false
+		switch {
+		case ev.Kind == "write" && !strings.HasSuffix(ev.Site, "_enable"):
+			p, isW = rel(ev.Site), true
+		case ev.Kind == "yield" && ev.Site == "exec.start" && strings.Contains(ev.ID, "_setpwm") && len(ev.Args) > 0:
+			p, isW = rel(ev.ID), true
+			fmt.Sscanf(ev.Args[0], "%d", &val)
+		case ev.Kind == "exec" && strings.Contains(ev.Site, "_setpwm") && ev.Err != "" && len(ev.Args) > 0:
+			p, isW = rel(ev.Site), true
+			fmt.Sscanf(ev.Args[0], "%d", &val)
+		}
+		if !isW || val != 255 {
+			continue
+		}
+		for _, f := range sc.Fans {
+			if strings.Contains(p, "/"+f.ID+".") || strings.Contains(p, "/"+f.ID+"_") || (f.Kind == "hwmon" && strings.HasSuffix(p, fmt.Sprintf("/pwm%d", f.Channel))) {
+				w255[f.ID]++
+				if ev.Err != "" || ev.Fault != "" {
+					w255Faulted[f.ID]++
+				}
+			}
+		}
+	}
+	unsatisfiable := func(id string) bool { return w255[id] > 0 && w255Faulted[id] == w255[id] }
 	res.State(sc.Variant + "|" + faultSig)
 	switch {
 	case co.PanicMsg != "":
@@ -272,7 +324,7 @@ func judgeSurvive(res *check.Result, sc *world.Scenario, co *childOut, prop stri
 		for i := range sc.Fans {
 			f := &sc.Fans[i]
 			pwm, mode := readFinal(co.WorldDir, sc, f)
-			if !handedBack(f, pwm, mode) {
+			if !handedBack(f, pwm, mode) && !unsatisfiable(f.ID) {
 				bad = append(bad, fmt.Sprintf("%s(mode %d, pwm %d)", f.ID, mode, pwm))
 			}
 		}
@@ -298,6 +350,11 @@ func judgeSurvive(res *check.Result, sc *world.Scenario, co *childOut, prop stri
 		ok := handedBack(f, pwm, mode)
 		if restored[f.ID] && ok {
 			res.Probe("fan-stopped-and-restored")
+			continue
+		}
+		if restored[f.ID] && unsatisfiable(f.ID) {
+			// every attempt to write full speed was itself made to fail by the fault plan
+			res.Probe("unsatisfiable-fault-plan(unjudged)")
 			continue
 		}
 		role := "affected"
